@@ -103,7 +103,7 @@ func (ial *IndentAwareLexer) getLengthOfNewlineToken(currentToken antlr.Token) i
 	}
 
 	if sawSpaces && sawTabs {
-		panic("Indentation contains tabs and spaces")
+		ial.GetErrorListenerDispatch().SyntaxError(ial, nil, currentToken.GetLine(), currentToken.GetColumn(), "indentation contains tabs and spaces", nil)
 	}
 
 	return length
